@@ -26,7 +26,7 @@ LEVEL_TEXT = ("Scenarios with continuous release, deaths by IBM age limit and by
 LEVEL_NOTE = ("Tolerance 1e-9 with float64 forcing files, 2e-6 relative (f4 output precision) with float32 forcing files because u += dU accumulates in a different order after a restart. An additional final "
               "record at the stop time in the restarted run and a different default reference time are documented behaviour and are not judged.")
 RULE = ("case = scenario; every completed file except the last is a restart point. Non-trivial restart point: particles are released and die after it; distinct by scenario parameters and file index.")
-MANDATORY = ["inactive_particles_carried_over_the_restart", "release_file_time_off_the_frequency_axis", "output_root_ending_in_digit_or_underscore", "forcing_frames_between_model_steps", "forcing_in_several_files", "restart_between_forcing_files", "restart_points", "records_compared", "newest_pids_dead_in_last_record", "newest_pids_dead_in_last_record_no_particle_variables", "new_release_after_restart", "death_after_restart", "left_grid", "duration_not_multiple_of_period", "scheme_EF", "scheme_RK2", "scheme_RK4",
+MANDATORY = ["time_reversed_run_restarted", "inactive_particles_carried_over_the_restart", "release_file_time_off_the_frequency_axis", "output_root_ending_in_digit_or_underscore", "forcing_frames_between_model_steps", "forcing_in_several_files", "restart_between_forcing_files", "restart_points", "records_compared", "newest_pids_dead_in_last_record", "newest_pids_dead_in_last_record_no_particle_variables", "new_release_after_restart", "death_after_restart", "left_grid", "duration_not_multiple_of_period", "scheme_EF", "scheme_RK2", "scheme_RK4",
              "particle_variable_compared", "file_names_compared"]
 ASSUMPTIONS = ["diffusion off (as the property states)", "sparse layout (warm start reads particle_count)"]
 TIMEOUT = {"quick": 1200, "thorough": 3500}
@@ -128,7 +128,21 @@ def build(case: dict[str, Any]):
         # the IBM switches particles off (alive, not moved); the standard state variable `active` is part of the output so that a restart can carry it on
         run["ibm"]["deactivate_time"] = {str(tadd(C.T0, dt)): [0], str(tadd(C.T0, 2 * dt)): [1]}  # keyed by model time: a restarted run counts its steps anew
         run["output"]["instance"]["active"] = "i1"
-    return dict(world=world, run=run), dict(P=P, numrec=numrec, ns=ns, dt=dt, scheme=scheme, store=store, freq=freq, lifetime=lifetime, pvars=pvars, inactive=inactive, offgrid=bool(offgrid), offaxis=bool(offaxis and not case.get("gap") and not case.get("newest_dead")))
+    rev = bool(case["idx"] % 5 == 3 and not case.get("gap") and not case.get("newest_dead"))
+    if rev:
+        # the same set-up run backwards in time: every time t of the release table and of the IBM schedule is mirrored to T0 + ns*dt - (t - T0)
+        end = np.datetime64(C.T0, "s") + np.timedelta64(ns * dt, "s")
+
+        def mir(t):
+            return str(end - (np.datetime64(t, "s") - np.datetime64(C.T0, "s")))
+
+        for r_ in rows:
+            r_[0] = mir(r_[0])
+        rows.sort(key=lambda r_: r_[0], reverse=True)
+        run.update(start=str(end), stop=C.T0, reversed=True)
+        if "deactivate_time" in run["ibm"]:
+            run["ibm"]["deactivate_time"] = {mir(k): v for k, v in run["ibm"]["deactivate_time"].items()}
+    return dict(world=world, run=run), dict(P=P, numrec=numrec, ns=ns, dt=dt, scheme=scheme, store=store, freq=freq, lifetime=lifetime, reversed=rev, pvars=pvars, inactive=inactive, offgrid=bool(offgrid), offaxis=bool(offaxis and not case.get("gap") and not case.get("newest_dead")))
 
 
 def decode_pvar(f, name):
@@ -162,6 +176,7 @@ def run_case(case: dict[str, Any], wd: Path) -> dict[str, Any]:
     sit["duration_not_multiple_of_period"] = int(par["ns"] % par["P"] != 0)
     sit["forcing_in_several_files"] = int(len(scn["world"]["files"]) > 1)
     sit["forcing_frames_between_model_steps"] = int(par.get("offgrid", False))
+    sit["time_reversed_run_restarted"] = int(bool(par.get("reversed")))
     sit["inactive_particles_carried_over_the_restart"] = int(bool(par.get("inactive")))
     sit["release_file_time_off_the_frequency_axis"] = int(par.get("offaxis", False))
     if not resA.ok:
@@ -207,7 +222,7 @@ def run_case(case: dict[str, Any], wd: Path) -> dict[str, Any]:
         for f in filesB:
             for r in f.records:
                 byt[r.time] = (f, r)
-        later = [(f, r) for f, r in recA if r.time > t_restart]
+        later = [(f, r) for f, r in recA if (r.time < t_restart if par.get("reversed") else r.time > t_restart)]
         prev_pids = set(int(p) for p in fk.records[-1].pid)
         for fA, rA in later:
             if rA.time not in byt:
